@@ -18,6 +18,7 @@ import (
 	zc "github.com/protolambda/zrnt/eth2/beacon/common"
 	"github.com/protolambda/ztyp/codec"
 
+	"github.com/zen-eth/shisui/portalwire"
 	"github.com/zen-eth/shisui/state"
 	"github.com/zen-eth/shisui/storage"
 	"verifharness/mc"
@@ -191,6 +192,8 @@ func c13Eval(r *mc.Report, c *c13Case) {
 		r.Violation("stores-exactly-the-final-node-or-code", kind, fmt.Sprintf("%s [%s | %s]", bad, c.Base, c.Op), c)
 	}
 
+	c13ThroughNetwork(r, c, key, content, kind, vmsg == "" && verr == nil, perr, mock)
+
 	impl := "accept"
 	switch {
 	case vmsg != "":
@@ -334,4 +337,58 @@ func replayC13(r *mc.Report, e *Env, rawCase json.RawMessage) {
 		panic(err)
 	}
 	c13Eval(r, &c)
+}
+
+// The consumer of accepted offers: state.Network.validateContents (validate, then Put through
+// the node) on a long-lived unstarted state node whose store is swapped per case. What the
+// validator refuses must not reach the store by this route either, and what it passes is
+// stored exactly as the direct Put stores it.
+type c13SwapStore struct{ storage.ContentStorage }
+
+var (
+	c13Net     *bareNode
+	c13NetSwap *c13SwapStore
+)
+
+func c13ThroughNetwork(r *mc.Report, c *c13Case, key, content []byte, kind string, validated bool, perr error, direct *storage.MockStorage) {
+	if c13Net == nil {
+		c13NetSwap = &c13SwapStore{}
+		c13NetSwap.ContentStorage = storage.NewMockStorage()
+		c13Net = newBareNode(bareOpts{keyIdx: 13, proto: portalwire.State, store: c13NetSwap})
+	}
+	mock := storage.NewMockStorage().(*storage.MockStorage)
+	c13NetSwap.ContentStorage = state.NewStateStorage(mock, nil)
+	var nerr error
+	if msg, site := panicsTo(func() {
+		nerr = state.NewStateNetwork(c13Net.P, state.NewStateValidator(c13Oracle(c.Roots))).VerifValidateContents([][]byte{key}, [][]byte{content})
+	}); msg != "" {
+		r.Count("network_route_panics", 1) // the panic itself is reported by the direct route (same validator, same Put)
+		_ = site
+		return
+	}
+	r.Count("network_route_cases", 1)
+	switch {
+	case !validated && (nerr == nil || len(mock.Db) != 0):
+		r.Violation("accepted-only-with-valid-proof", "state.Network.validateContents:"+kind,
+			fmt.Sprintf("ValidateContent refuses the item, the network's consumer of accepted offers returned %v and left %d record(s) in the store [%s | %s]", nerr, len(mock.Db), c.Base, c.Op), c)
+	case validated && perr == nil && (nerr != nil || len(mock.Db) != 1 || !c13SameValues(mock, direct)):
+		r.Violation("stores-exactly-the-final-node-or-code", "state.Network.validateContents:"+kind,
+			fmt.Sprintf("validated item: the direct Put stored %d record(s), the network's consumer returned %v and stored %d record(s) with other content [%s | %s]", len(direct.Db), nerr, len(mock.Db), c.Base, c.Op), c)
+	}
+}
+
+func c13SameValues(a, b *storage.MockStorage) bool {
+	if len(a.Db) != len(b.Db) {
+		return false
+	}
+	for _, va := range a.Db {
+		found := false
+		for _, vb := range b.Db {
+			found = found || bytes.Equal(va, vb)
+		}
+		if !found {
+			return false
+		}
+	}
+	return true
 }
